@@ -604,7 +604,6 @@ func (s *Store[K, V]) removeEntry(entry *Entry[K, V], reason RemoveReason) {
 	if verifOn {
 		verifAt(VpRemoveIn, s, entry, nil, int64(reason))
 	}
-	entry.flag.SetRemoved(true)
 	_, index := s.index(entry.key)
 	shard := s.shards[index]
 
@@ -618,9 +617,13 @@ func (s *Store[K, V]) removeEntry(entry *Entry[K, V], reason RemoveReason) {
 			if verifOn {
 				verifAt(VpRecheckAbort, s, entry, nil, int64(reason))
 			}
+			// the entry stays in the cache: keep it in the policy
+			// and put it back on the timer wheel with its new expire time
+			s.timerwheel.schedule(entry)
 			return
 		}
 	}
+	entry.flag.SetRemoved(true)
 
 	if prev := entry.meta.prev; prev != nil {
 		s.policy.Remove(entry, false)
@@ -743,7 +746,10 @@ func (s *Store[K, V]) sinkWrite(item WriteBufItem[K, V]) {
 		if expire := entry.expire.Load(); expire != 0 {
 			if expire <= s.timerwheel.clock.NowNano() {
 				s.removeEntry(entry, EXPIRED)
-				return
+				// expire time may be updated meanwhile and entry is kept
+				if entry.flag.IsRemoved() {
+					return
+				}
 			} else {
 				s.timerwheel.schedule(entry)
 			}
